@@ -219,6 +219,16 @@ def main(ctx):
                       {'module': 'Wire', 'enc': enc, 'mac': mac,
                        'cmp': cmp_})
         ctx.count(('wire', enc, mac, cmp_))
+    # full-size packets under compression (the payload of a maximum-size
+    # CHANNEL_DATA packet is 9 bytes longer than the data it carries)
+    for cmp_ in ('zlib', 'zlib@openssh.com', 'none'):
+        pl = [bytes([i % 251 for i in range(n)])
+              for n in (32759, 32760, 32768, 40000)]
+        kw = dict(compression_algs=[cmp_])
+        r = T.run_session(pl, client_kw=kw, server_kw=kw)
+        judge_session(ctx, r, pl, f'full-size packets, compression {cmp_}',
+                      {'module': 'Wire', 'fullsize': True, 'cmp': cmp_})
+        ctx.count(('fullsize', cmp_), nontrivial=True)
     # asymmetric algorithms per direction and every kex family
     for kex in (kexs if not quick else
                 [k for k in kexs if k in (
